@@ -52,7 +52,7 @@ Fixpoint prune (l : list cpt) : list cpt :=
   | c :: r => clear_older (flat_map entry_files r) c :: prune r
   end.
 
-Inductive obj := OCp (w b : N) | OInit (w b : N) | ORw (w : N) | ONotes.
+Inductive obj := OCp (w b : N) | OInit (w b : N) | ORw (w : N) | ONotes | OBlob (w b s : N).
 
 Definition obj_eqb (a b : obj) : bool :=
   match a, b with
@@ -60,6 +60,7 @@ Definition obj_eqb (a b : obj) : bool :=
   | OInit w1 b1, OInit w2 b2 => (w1 =? w2) && (b1 =? b2)
   | ORw w1, ORw w2 => w1 =? w2
   | ONotes, ONotes => true
+  | OBlob w1 b1 s1, OBlob w2 b2 s2 => (w1 =? w2) && ((b1 =? b2) && (s1 =? s2))
   | _, _ => false
   end.
 
@@ -67,16 +68,21 @@ Inductive val :=
 | VCp (l : list cpt)
 | VInit (l : list N)
 | VEv (l : list N)
-| VNotes (l : list (N * N)).
+| VNotes (l : list (N * N))
+| VBlob (l : list N).
 
 (* what a reader makes of a file of the wrong shape: nothing (unwrap_or_default / skip malformed) *)
 Definition as_cp (v : val) : list cpt := match v with VCp l => l | _ => [] end.
 Definition as_ev (v : val) : list N := match v with VEv l => l | _ => [] end.
 Definition as_notes (v : val) : list (N * N) := match v with VNotes l => l | _ => [] end.
 Definition as_init (v : val) : list N := match v with VInit l => l | _ => [] end.
+Definition as_blob (v : val) : list N := match v with VBlob l => l | _ => [] end.
 
 Definition default_val (o : obj) : val :=
-  match o with OCp _ _ => VCp [] | OInit _ _ => VInit [] | ORw _ => VEv [] | ONotes => VNotes [] end.
+  match o with
+  | OCp _ _ => VCp [] | OInit _ _ => VInit [] | ORw _ => VEv [] | ONotes => VNotes []
+  | OBlob _ _ _ => VBlob []
+  end.
 
 (* ------------------------------------------------------------------ operations *)
 Inductive opk :=
@@ -84,7 +90,10 @@ Inductive opk :=
 | RefreshCp (w b : N)                  (* post_commit: read all, refresh prompts, write all *)
 | AppendEv (w e : N)                   (* append_event_to_file *)
 | NotesAdd (k v : N)                   (* git notes --ref=ai add -f *)
-| WriteInit (w b : N) (v : list N).    (* write_initial_attributions: blind overwrite *)
+| WriteInit (w b : N) (v : list N)     (* write_initial_attributions: blind overwrite *)
+| BlobTrunc (w b s : N)                (* fs::write of blobs/<s>, first half: the file is truncated *)
+| BlobFill (w b s : N) (c : list N)    (* ... second half: the content is there *)
+| BlobGet (w b s : N).                 (* get_file_version: only read (the identity as an update) *)
 
 Definition obj_of (k : opk) : obj :=
   match k with
@@ -93,6 +102,9 @@ Definition obj_of (k : opk) : obj :=
   | AppendEv w _ => ORw w
   | NotesAdd _ _ => ONotes
   | WriteInit w b _ => OInit w b
+  | BlobTrunc w b s => OBlob w b s
+  | BlobFill w b s _ => OBlob w b s
+  | BlobGet w b s => OBlob w b s
   end.
 
 Fixpoint upsert (k v : N) (l : list (N * N)) : list (N * N) :=
@@ -109,6 +121,9 @@ Definition apply_op (k : opk) (read : val) : val :=
   | AppendEv _ e => VEv (firstn max_events (e :: firstn max_events (as_ev read)))
   | NotesAdd c n => VNotes (upsert c n (as_notes read))
   | WriteInit _ _ x => VInit x
+  | BlobTrunc _ _ _ => VBlob []
+  | BlobFill _ _ _ c => VBlob c
+  | BlobGet _ _ _ => read
   end.
 
 (* ------------------------------------------------------------------ programs and traces *)
@@ -269,6 +284,19 @@ Definition notes_add_prog (c n : N) : program :=
 Definition checkpoint_run (w b : N) (x : cpt) : program :=
   [SPeek (OCp w b); SPeek (OInit w b)] ++ append_checkpoint_prog w b x.
 
+(* save_current_file_states: the content-addressed blob of a tracked file is (re)written with a plain
+   fs::write (truncate, then write) even when it exists already - unless the source says otherwise *)
+Definition save_blob (w b : N) (sc : N * list N) : program :=
+  if blob_rewritten_in_place
+  then [SAtomic (BlobTrunc w b (fst sc)); SAtomic (BlobFill w b (fst sc) (snd sc))]
+  else [SAtomic (BlobFill w b (fst sc) (snd sc))].
+
+(* checkpoint::run with its blob traffic: tracked = (sha, content) of the tracked files it snapshots,
+   prev = shas of the previous versions it reads back to compute the payload *)
+Definition checkpoint_run_full (w b : N) (x : cpt) (tracked : list (N * list N)) (prev : list N) : program :=
+  [SPeek (OCp w b); SPeek (OInit w b)] ++ flat_map (save_blob w b) tracked ++ [SPeek (OCp w b)]
+  ++ map (fun s => SRead (BlobGet w b s)) prev ++ append_checkpoint_prog w b x.
+
 (* post-command hook of `git commit` in worktree w: parent b, new commit c, rewrite-log event e,
    note n, uncommitted AI claims v carried over to the new base *)
 Definition commit_prog (w b c e n : N) (v : list N) : program :=
@@ -354,6 +382,7 @@ Definition storage_file (common : path) (gd : N -> path) (o : obj) : option path
   | OInit w b => Some (ai_dir common (gd w) ++ [s_working_logs; [b]; s_initial])
   | ORw w => Some (ai_dir common (gd w) ++ [s_rewrite_log])
   | ONotes => None
+  | OBlob w b s => Some (ai_dir common (gd w) ++ [s_working_logs; [b]; s_blobs; [s]])
   end.
 
 (* ------------------------------------------------------------------ enumeration (for examples and the driver) *)
@@ -380,7 +409,10 @@ Definition lost (o : obj) (s0 final : store) (tr : list event) : list N :=
 
 (* ------------------------------------------------------------------ worktree confinement *)
 Definition obj_wt (o : obj) : option N :=
-  match o with OCp w _ => Some w | OInit w _ => Some w | ORw w => Some w | ONotes => None end.
+  match o with
+  | OCp w _ => Some w | OInit w _ => Some w | ORw w => Some w | ONotes => None
+  | OBlob w _ _ => Some w
+  end.
 
 (* every object the program reads for update or writes belongs to worktree w *)
 Definition confined (w : N) (p : program) : Prop :=
@@ -404,6 +436,13 @@ Definition wit_commit_ckpt_progs : list program :=
   [commit_prog 0 7 101 1 11 []; checkpoint_run 0 7 wit_c2].
 Definition wit_wt_progs : list program := [checkpoint_run 1 7 wit_c1; checkpoint_run 2 7 wit_c2].
 Definition r1r2w1w2 : list nat := [0; 1; 0; 1]%nat.
+(* two checkpoints that both snapshot the tracked, unchanged file with blob 5 = [1;2] (written by an
+   earlier checkpoint) and read it back as the previous version *)
+Definition wit_blob_progs : list program :=
+  [checkpoint_run_full 0 7 wit_c1 [(5, [1; 2])] [5]; checkpoint_run_full 0 7 wit_c2 [(5, [1; 2])] [5]].
+Definition wit_blob_store : store := upd (OBlob 0 7 5) (VBlob [1; 2]) empty_store.
+Definition sched_torn_blob : list nat :=
+  (repeat 1 5 ++ repeat 0 3 ++ [1] ++ repeat 0 5 ++ repeat 1 2)%nat.
 
 (* for one schedule: the known class holds iff some executed append is missing at the end *)
 Definition known_iff_lost (o : obj) (progs : list program) (sched : list nat) : bool :=
